@@ -6,6 +6,8 @@ import BromeliaVerif.Properties.C01
 import BromeliaVerif.Properties.C02
 import BromeliaVerif.Properties.C03
 import BromeliaVerif.Properties.C10
+import BromeliaVerif.Properties.C06
+import BromeliaVerif.Properties.C07
 import BromeliaVerif.Properties.C09
 import BromeliaVerif.Properties.C11
 import BromeliaVerif.Properties.C12
